@@ -1308,7 +1308,155 @@ def check_c17(ctx):
     return rep.finish()
 
 
+# ------------------------------------------------------------------------------ C13 python backend
+def subset_equal(exp, got):
+    """every field the specification's value names has the same value in the implementation's object"""
+    if isinstance(exp, dict):
+        return isinstance(got, dict) and all(k in got and subset_equal(v, got[k]) for k, v in exp.items())
+    if isinstance(exp, list):
+        return isinstance(got, list) and len(exp) == len(got) and all(subset_equal(a, b) for a, b in zip(exp, got))
+    return exp == got and (exp is None) == (got is None)
+
+
+def prepare_python(ctx, units):
+    root = os.path.join(WORK, "pygen")
+    os.makedirs(root, exist_ok=True)
+    mods = {}
+    for u in units:
+        g = u.resp.get("python", {})
+        if u.status == "accepted" and "ok" in g:
+            p = os.path.join(root, u.mod + ".py")
+            write_if_changed(p, g["ok"])
+            mods[u.name] = p
+    return mods
+
+
+def run_py(reqs, tag="py"):
+    import concurrent.futures
+    reqs = list(reqs)
+    n = max(1, min(NCPU, len(reqs) // 200 + 1))
+    shards = [reqs[i::n] for i in range(n)]
+    drv = os.path.join(VERIF, "harness", "py", "driver.py")
+    res = {}
+    with concurrent.futures.ThreadPoolExecutor(n) as ex:
+        for r in ex.map(lambda a: run_lines("python3", a[1], "%s%d" % (tag, a[0]), args=[drv]), enumerate(shards)):
+            res.update(r)
+    return res
+
+
+def check_c13(ctx):
+    rep = Report("C13", ctx.tier, ctx.seed)
+    units = make_units(kit.build(ctx.tier))
+    compile_units(ctx.driver(), units, ["analyze", "python"])
+    mods = prepare_python(ctx, units)
+    jobs = []
+    for k, u in enumerate(units):
+        jobs.append(dict(d=k + 1, type="", anc="", mode="info", n=0))
+        if u.name not in mods:
+            continue
+        for t in u.types():
+            jobs.append(dict(d=k + 1, type=t, anc="", mode="enc", n=0))
+            if not u.decl(t)["parent"]:
+                jobs.append(dict(d=k + 1, type=t, anc="", mode="pyparse", n=0))
+    vecs, info = run_jobs(ctx, units, jobs, rep)
+    usable = [v for v in vecs if info.get(v["unit"].name, {}).get("py") and v["unit"].name in mods
+              and not (v["k"] == "enc" and v["faults"])]
+    reqs = []
+    for i, v in enumerate(usable):
+        v["rid"] = i
+        m = mods[v["unit"].name]
+        if v["k"] == "enc":
+            reqs.append(dict(rid=i, mod=m, type=v["type"], op="serialize", value=node_to_native(v["val"]), root=v["root"]))
+        else:
+            reqs.append(dict(rid=i, mod=m, type=v["type"], op="parse", bytes=v["bytes"]))
+    obs = run_py(reqs)
+
+    def viol(v, kind, detail):
+        msg = ""
+        if isinstance(detail, dict) and isinstance(detail.get("err"), dict):
+            import re
+            m2 = re.sub(r"'[^']*'", "'X'", detail["err"].get("msg", ""))
+            m2 = re.sub(r"[A-Za-z_0-9]+\.parse\(\)", "X.parse()", m2)
+            msg = "|" + detail["err"].get("cls", "") + ":" + re.sub(r"[0-9]+", "N", m2)[:60]
+        fp = "C13|python|%s|%s|%s|%s%s" % (v["unit"].name, v["type"], kind,
+                                          ":".join(str(x) for x in (v.get("label") or [])), msg)
+        rp = {"backend": "python", "desc": v["unit"].desc, "pdl": v["unit"].src, "type": v["type"], "op": v["k"],
+              "label": v.get("label"), "observed": detail}
+        if v["k"] == "enc":
+            rp["stimulus"] = {"value": node_to_native(v["val"])}
+            rp["expected"] = {"bytes": hexs(v["bytes"]), "parse_back": {"cls": v["pyback"]["cls"],
+                                                                        "value": node_to_native(v["pyback"]["val"])}}
+        else:
+            rp["stimulus"] = {"bytes": hexs(v["bytes"])}
+            rp["expected"] = {"faults": v["faults"], "cls": v["cls"],
+                              "value": node_to_native(v["val"]) if not v["faults"] else None}
+        rep.violation(fp, rp)
+
+    for v in usable:
+        o = obs.get(v["rid"], {})
+        r = o.get("r", {})
+        rep.validated()
+        if "abnormal" in o or _abn(r):
+            viol(v, "abnormal:" + str((r if _abn(r) else o).get("abnormal"))[:40], r)
+            continue
+        u = v["unit"]
+        if v["k"] == "enc":
+            if "unconstructible" in r:
+                rep.notes["unconstructible"] = rep.notes.get("unconstructible", 0) + 1
+                continue
+            if "ok" not in r:
+                viol(v, "serialize_raises", r)
+                continue
+            ok = r["ok"]
+            if ok["bytes"] != v["bytes"]:
+                viol(v, "serialize_bytes", {"expected": hexs(v["bytes"]), "got": hexs(ok["bytes"])})
+                continue
+            d = u.decl(v["type"])
+            if not d["parent"] and ok.get("size") != len(v["bytes"]):
+                viol(v, "size_property", {"size": ok.get("size"), "len_serialize": len(v["bytes"])})
+            pb = v["pyback"]
+            if not pb["faults"]:
+                back = ok.get("back", {})
+                if "cls" not in back:
+                    viol(v, "parse_of_serialize_raises", back)
+                elif back["cls"] != pb["cls"]:
+                    viol(v, "parse_of_serialize_class:%s_expected_%s" % (back["cls"], pb["cls"]), back)
+                elif not subset_equal(node_to_native(pb["val"]), back["val"]):
+                    viol(v, "parse_of_serialize_value", {"expected": node_to_native(pb["val"]), "got": back["val"]})
+        else:
+            F = set(v["faults"])
+            if "Unsupported" in F:
+                continue
+            if not F:
+                if "ok" not in r:
+                    viol(v, "parse_rejects", r)
+                    continue
+                ok = r["ok"]
+                if ok["cls"] != v["cls"]:
+                    viol(v, "parse_class:%s_expected_%s" % (ok["cls"], v["cls"]), ok)
+                elif not subset_equal(node_to_native(v["val"]), ok["val"]):
+                    viol(v, "parse_value", {"expected": node_to_native(v["val"]), "got": ok["val"]})
+                else:
+                    dd = u.decl(ok["cls"])
+                    if dd and not dd["parent"] and ok.get("size") != len(v["bytes"]):
+                        viol(v, "size_property", {"size": ok.get("size"), "len": len(v["bytes"])})
+            else:
+                if "ok" in r:
+                    viol(v, "parse_accepts:" + "+".join(sorted(F)), r["ok"])
+                elif not r["err"].get("decode_error"):
+                    viol(v, "parse_raises_non_decode_error", r)
+        if rep.coverage["traces_validated_against_impl"] % 997 == 1:
+            rep.sample({"desc": u.name, "type": v["type"], "op": v["k"], "label": v.get("label"),
+                        "stimulus": hexs(v["bytes"]) if v["k"] != "enc" else node_to_native(v["val"])})
+    rep.notes["descriptions"] = len(units)
+    rep.notes["python_modules"] = len(mods)
+    rep.assumptions += ["Python API binding (PyParse) in spec/PdlInherit.tla: root entry point, most derived parsing child",
+                        "fields are compared on the names the specification's value carries (constrained fields excluded)"]
+    return rep.finish()
+
+
 CHECKS = {p: (lambda ctx, p=p: check_rust_codec(p, ctx)) for p in CODEC_MODES}
+CHECKS["C13"] = check_c13
 CHECKS["C17"] = check_c17
 CHECKS["C15"] = check_c15
 CHECKS["C06"] = check_c06
